@@ -276,6 +276,7 @@ impl DiagnosticData {
                     UniqueVariable { .. } => "UniqueVariable",
                     UniqueArgument { .. } => "UniqueArgument",
                     UniqueInputValue { .. } => "UniqueInputValue",
+                    UniqueInputField { .. } => "UniqueInputField",
                     UndefinedArgument { .. } => "UndefinedArgument",
                     UndefinedDefinition { .. } => "UndefinedDefinition",
                     UndefinedDirective { .. } => "UndefinedDirective",
@@ -384,6 +385,9 @@ impl DiagnosticData {
                         Some(format!(r#"There can be only one argument named "{name}"."#))
                     }
                     UniqueInputValue { .. } => None,
+                    UniqueInputField { name, .. } => Some(format!(
+                        r#"There can be only one input field named "{name}"."#
+                    )),
                     UndefinedArgument {
                         name, coordinate, ..
                     } => Some(format!(
